@@ -76,6 +76,12 @@ def decode(x, self_obj=None, aux=None, node=None):
                 return bytes(v)
             if tag == "$slice":
                 return slice(*v)
+            if tag == "$deque":
+                import collections
+
+                return collections.deque(decode(i, self_obj, aux, node) for i in v)
+            if tag == "$range":
+                return range(*v)
             if tag == "$gen":
                 return (decode(i, self_obj, aux, node) for i in v)
             if tag == "$self":
@@ -370,6 +376,16 @@ def _m_pop(m, *a):
     return m.pop(*a)
 
 
+def _cmp(v):
+    """Model-side operand of a comparison: tuples, bytes, ranges and deques are compared as what they are (a list
+    is never equal to them and cannot be ordered against them); everything else in stored form."""
+    import collections
+
+    if isinstance(v, (tuple, bytes, bytearray, range, collections.deque)):
+        return v
+    return norm(v)
+
+
 def _m_popitem(m):
     return m.popitem()
 
@@ -430,18 +446,18 @@ OPS = {
     "iter": (_iterlist, _iterlist, False, "iter"),
     "contains": (lambda n, v: v in n, lambda m, v: norm(v) in m, False, "value"),
     "call": (lambda n: n(), lambda m: norm(m), False, "value"),
-    "eq": (lambda n, v: n == v, lambda m, v: m == norm(v), False, "bool"),
-    "ne": (lambda n, v: n != v, lambda m, v: m != norm(v), False, "bool"),
-    "req": (lambda n, v: v == n, lambda m, v: norm(v) == m, False, "bool"),
-    "rne": (lambda n, v: v != n, lambda m, v: norm(v) != m, False, "bool"),
-    "lt": (lambda n, v: n < v, lambda m, v: m < norm(v), False, "bool"),
-    "le": (lambda n, v: n <= v, lambda m, v: m <= norm(v), False, "bool"),
-    "gt": (lambda n, v: n > v, lambda m, v: m > norm(v), False, "bool"),
-    "ge": (lambda n, v: n >= v, lambda m, v: m >= norm(v), False, "bool"),
-    "rlt": (lambda n, v: v < n, lambda m, v: norm(v) < m, False, "bool"),
-    "rle": (lambda n, v: v <= n, lambda m, v: norm(v) <= m, False, "bool"),
-    "rgt": (lambda n, v: v > n, lambda m, v: norm(v) > m, False, "bool"),
-    "rge": (lambda n, v: v >= n, lambda m, v: norm(v) >= m, False, "bool"),
+    "eq": (lambda n, v: n == v, lambda m, v: m == _cmp(v), False, "bool"),
+    "ne": (lambda n, v: n != v, lambda m, v: m != _cmp(v), False, "bool"),
+    "req": (lambda n, v: v == n, lambda m, v: _cmp(v) == m, False, "bool"),
+    "rne": (lambda n, v: v != n, lambda m, v: _cmp(v) != m, False, "bool"),
+    "lt": (lambda n, v: n < v, lambda m, v: m < _cmp(v), False, "bool"),
+    "le": (lambda n, v: n <= v, lambda m, v: m <= _cmp(v), False, "bool"),
+    "gt": (lambda n, v: n > v, lambda m, v: m > _cmp(v), False, "bool"),
+    "ge": (lambda n, v: n >= v, lambda m, v: m >= _cmp(v), False, "bool"),
+    "rlt": (lambda n, v: v < n, lambda m, v: _cmp(v) < m, False, "bool"),
+    "rle": (lambda n, v: v <= n, lambda m, v: _cmp(v) <= m, False, "bool"),
+    "rgt": (lambda n, v: v > n, lambda m, v: _cmp(v) > m, False, "bool"),
+    "rge": (lambda n, v: v >= n, lambda m, v: _cmp(v) >= m, False, "bool"),
     "reversed": (lambda n: list(reversed(n)), lambda m: list(reversed(m)), False, "value"),
     "index": (lambda n, *a: n.index(*a), lambda m, v, *a: m.index(norm(v), *a), False, "value"),
     "count": (lambda n, v: n.count(v), lambda m, v: m.count(norm(v)), False, "value"),
